@@ -103,6 +103,15 @@ class WalkOracles(Oracles):
         if name in ("eq", "ne") and tr.endswith("PartialEq") and len(args) == 2:
             # is a table entry's extension set empty?  a fact about the data: both answers are explored
             a, b = recv(it, args[0]), recv(it, args[1])
+            if isinstance(a, Opaque) and isinstance(b, Opaque) and "fold" in a.info and "fold" in b.info:
+                # equality of two payloads (the caller's type): a fact about the data — the same value is equal to itself, any two
+                # different (partial) folds may or may not be equal
+                if tuple(a.info["fold"]) == tuple(b.info["fold"]):
+                    same = True
+                else:
+                    nm_ = "payload(%s)==payload(%s)" % tuple(sorted(["+".join(map(str, a.info["fold"])), "+".join(map(str, b.info["fold"]))]))
+                    same = self.choose(nm_, (False, True))
+                return mkbool(same if name == "eq" else not same)
             for x, y in ((a, b), (b, a)):
                 if isinstance(x, Opaque) and "exts_of" in x.info and isinstance(y, Adt) and y.name == EXTS and isinstance(y.fields[0], Int) and y.fields[0].is_conc() \
                         and y.fields[0].val == 0:
@@ -161,7 +170,7 @@ def extender_table(F, rep, rule, graph_route):
         rep.inconclusive(rule, "extender", str(e))
         return
     # extender = the named function that calls the step function (directly, in a loop, or from a closure it hands to an iterator)
-    cands = attributed_callers(F, step["path"])
+    cands = pick_extender(F, attributed_callers(F, step["path"]))
     if len(cands) != 1:
         rep.inconclusive(rule, "extender", "role discovery: expected one function calling the %s step function, found %d" % (label, len(cands)))
         return
@@ -305,12 +314,21 @@ def attributed_callers(F, callee_path, exclude=()):
     return list(out.values())
 
 
+def pick_extender(F, cands):
+    """several named functions call the step function: the growth function is the one that returns the extensions at the end of the
+    line it has built (an `Exts`); helpers that merely ask the step function a question (bool / enum results) are not it"""
+    if len(cands) <= 1:
+        return cands
+    ex = [c for c in cands if c.get("locals") and str(c["locals"][0].get("ty", "") if isinstance(c["locals"][0], dict) else c["locals"][0]).split("::")[-1] == "Exts"]
+    return ex if len(ex) == 1 else cands
+
+
 def find_extender(F, graph_route):
     """the growth function: the one named function that calls the step function (role discovery; an undetermined role is reported as
     INCONCLUSIVE by the callers, never as a violation)"""
     suffix = "compression::ExtModeNode" if graph_route else "compression::ExtMode"
     step = find_step(F, suffix)
-    cands = attributed_callers(F, step["path"])
+    cands = pick_extender(F, attributed_callers(F, step["path"]))
     if len(cands) != 1:
         raise Unsupported("role discovery: expected one function calling the %s step function, found %d" % ("graph route" if graph_route else "k-mer route", len(cands)))
     return step, cands[0]
@@ -593,10 +611,11 @@ from .dt import SetV, bitset_model
 class DriverOracles(WalkOracles):
     N = 3
 
-    def __init__(self, script, builder_path, graph_route):
+    def __init__(self, script, builder_path, graph_route, step_path=None):
         WalkOracles.__init__(self, script)
         self.builder_path = builder_path
         self.graph_route = graph_route
+        self.step_path = step_path
         self.events = []
         self.new_stranded = None
 
@@ -620,6 +639,26 @@ class DriverOracles(WalkOracles):
             items = [Tup([Ref(Cell(Opaque("K", {"kmer", "id-%d" % i}), "k%d" % i)), Ref(Cell(exts_sym("tx%d" % i), "x%d" % i)),
                           Ref(Cell(Opaque("D", {"data"}, {"fold": ("t%d" % i,)}), "d%d" % i))]) for i in range(self.N)]
             return IterV("owned", (Ref(Cell(VecV(items), "index-iter")), 0, self.N))
+        if "BoomHashMap" in path and name == "get_key" and len(args) == 2 and self.conc(args[1]) is not None and self.conc(args[1]) < self.N:
+            i = self.conc(args[1])
+            return some(Ref(Cell(Opaque("K", {"kmer", "id-%d" % i}), "k%d" % i)))
+        if self.step_path and (p == self.step_path or path == self.step_path) and len(args) == 3:
+            # the driver itself asks the step function about an entry (a helper deciding where to start): whether the line continues
+            # from that entry in that direction is a fact about the data — both answers are explored
+            cur = recv(it, args[1])
+            ident = None
+            for t in tags_of(cur):
+                if t.startswith("id-") or t.startswith("id:"):
+                    ident = t[3:]
+            if ident is None and isinstance(cur, Int) and cur.is_conc():
+                ident = str(cur.val)
+            d = dir_of(args[2])
+            cont = self.choose("line-continues(%s,%s)" % (ident, dir_name(d)), (False, True))
+            adt = "compression::ExtModeNode" if self.graph_route else "compression::ExtMode"
+            if cont:
+                nxt = Int(64, False, bits=[TOP] * 64, tags=frozenset({"id:q"})) if self.graph_route else Opaque("K", {"kmer", "id-q"})
+                return Adt(adt, 0, [nxt, dir_v(d), exts_sym("q")])
+            return Adt(adt, 1, [exts_sym("final")])
         if p == self.builder_path or path == self.builder_path:
             me = args[0]
             comp = it.read(me.cell, me.path)
@@ -763,7 +802,7 @@ def hash_driver_table(F, rep, rule):
     rows = 0
     for stranded in (False, True):
         def mk(script):
-            return DriverOracles(script, builder["path"], False)
+            return DriverOracles(script, builder["path"], False, step["path"])
 
         def run(h, stranded=stranded):
             it = Interp(F, False, h)
@@ -835,7 +874,7 @@ def graph_driver_table(F, rep, rule):
     for stranded in (False, True):
         for censored in (None, [], [1], [0, 2], [2, 0], [1, 1]):
             def mk(script):
-                return DriverOracles(script, builder["path"], True)
+                return DriverOracles(script, builder["path"], True, step["path"])
 
             def run(h, stranded=stranded, censored=censored):
                 it = Interp(F, False, h)
